@@ -676,8 +676,13 @@ def gen_cases(ctx, round, entry):
                   {"defaults": True}, {"writer": "func", "reader": "func", "nrows": True, "dtype": "descr", "defaults": True}]
         for i, form in enumerate(forms * (1 if q else 3)):
             f = [rnd_field(r, k) for k in range(r.randint(2, 4))]
-            c = mk_case(r, f, r.randint(1, 5), DELIMS[i % len(DELIMS)], "array-forms", True)
+            c = mk_case(r, f, r.randint(2, 5), DELIMS[i % len(DELIMS)], "array-forms", True)
             c["form"] = form
+            cs.append(c)
+        for d in DELIMS[::2] if q else DELIMS:                     # reversed views of native tables with >= 2 rows, every entry
+            f = [{"name": "k", "t": r.choice(INT_T), "o": "<", "shape": []}, {"name": "s", "t": "S2", "o": "|", "shape": []}]
+            c = mk_case(r, f, r.randint(2, 6), d, "array-forms", True)
+            c["form"] = ["reversed"]
             cs.append(c)
         for i, api in enumerate((apis_s if entry == "sfile" else apis_r) * (1 if q else 3)):
             f = [rnd_field(r, k) for k in range(r.randint(2, 4))]
@@ -687,7 +692,7 @@ def gen_cases(ctx, round, entry):
                 c["form"] = r.choice(forms)
             cs.append(c)
         # -- long tables: row counts 2^k +- 1 beyond stdio and block sizes
-        for nrows in ((16385,) if q else (1025, 4095, 16383, 16385, 32769, 65537, 100003)):
+        for nrows in ((16385,) if q else (1025, 4095, 16383, 16385, 32769, 65537)):
             f = [{"name": "i", "t": r.choice(["i2", "u2", "i1"]), "o": r.choice("<>"), "shape": []},
                  {"name": "s", "t": "S1", "o": "|", "shape": []}]
             if nrows < 2000:
